@@ -236,7 +236,11 @@ fn explore(comp: &str, lean: bool, alpha: &[Input], cap: usize, pr: Option<&Vec<
             return (recs, false);
         }
         let (id, access) = states[next].clone();
-        let expanded = next < cap;
+        // a composite object (no behavioural probe set) whose rendering does not close within the cap
+        // cannot be decided on this graph anyway: stop expanding early, so that a state space that a
+        // change has made unbounded does not produce a file of gigabytes
+        let cap_eff = if pr.is_none() && !probes_exist_hint(alpha) && states.len() > cap { cap.min(20_000) } else { cap };
+        let expanded = next < cap_eff;
         let base = rebuild(comp, alpha, &access);
         let obs = base.obs();
         let stage = base.stage_ids();
